@@ -10,7 +10,7 @@ open Py
 /-- `rec'` extends `rec` -/
 structure RecExt (rec rec' : Rec) : Prop where
   spans : ∀ x, Ext (rec.spans x) (rec'.spans x)
-  document : ∀ x, Ext (rec.document x) (rec'.document x)
+  document : ∀ d x, Ext (rec.document d x) (rec'.document d x)
 
 theorem Pat.subGo_ext {f g : Match → M Str} (h : ∀ m, Ext (f m) (g m)) : ∀ ps, Ext (Pat.subGo f ps) (Pat.subGo g ps) := by
   intro ps
